@@ -602,7 +602,10 @@ class Executor:
         ty = self.P.types.resolve_alias(norm_ty(ty))
         if ty in INT_TYPES:
             b, s = INT_TYPES[ty]
-            return self.fresh_int(b, s, tag or ty)
+            v = self.fresh_int(b, s, tag or ty)
+            if ty == "char":
+                self.assume(z3.Or(z3.ULT(v.bv, 0xD800), z3.And(z3.UGE(v.bv, 0xE000), z3.ULT(v.bv, 0x110000))))
+            return v
         if ty == "bool":
             return self.fresh_bool(tag or "b")
         if ty == "()":
@@ -1021,6 +1024,9 @@ class Executor:
         if k == "array":
             items = [self.operand(frame, o) for o in rv.ops]
             return VSeq("?", len(items), items, self.new_vid())
+        if k == "repeat":
+            v = self.operand(frame, rv.op)
+            return VSeq("?", rv.n, [vcopy(v) for _ in range(rv.n)], self.new_vid())
         if k == "closure":
             m = re.match(r"^(\{closure@[^}]*\})(?: \{ (.*) \})?$", rv.text, re.S)
             caps = []
